@@ -173,6 +173,7 @@ pub fn alphabet(name: &str) -> Vec<Op> {
             v.push(Op::Abort { k: 0, c: C_L, ch: 1 });
             v.push(Op::Abort { k: 1, c: C_X, ch: 0 });
             v.push(Op::Abort { k: 1, c: C_M, ch: 4 });
+            v.push(Op::Abort { k: 0, c: C_Y, ch: 5 });
             for k in [0u8, 1, 2] {
                 v.push(Op::Remove { k });
             }
